@@ -164,6 +164,23 @@ func genHistoryPanic(rng *rand.Rand, idx int, tier string) Case {
 	n := 3 + rng.Intn(5)
 	calls := []interface{}{}
 	for i := 0; i < n; i++ {
+		if g.p(35) {
+			// the caller's checker runs under a parameter or header validator (recycled in the subject history)
+			leaf := func() map[string]interface{} { return map[string]interface{}{"type": "string", "format": "panicky"} }
+			s := leaf()
+			var v interface{} = g.pick(strPool)
+			if g.p(50) {
+				s = map[string]interface{}{"type": "array", "items": leaf()}
+				v = []interface{}{g.pick(strPool), g.pick(strPool), g.pick(strPool)}
+			}
+			if g.p(50) {
+				s["name"], s["in"] = "p", "query"
+				calls = append(calls, map[string]interface{}{"kind": "param", "param": s, "value": v})
+			} else {
+				calls = append(calls, map[string]interface{}{"kind": "header", "name": "h", "header": s, "value": v})
+			}
+			continue
+		}
 		s := g.rootSchema()
 		v := plantFormat(g, s, 3)
 		if g.p(15) {
